@@ -228,6 +228,9 @@ static void sys_log (int c, int kind, size_t req, size_t iovn, ssize_t ret, int 
   printf (" inj=%s\n", f ? fault_name[f->what] : "-");
 }
 
+/* unit op `hab`: answers for the (at most two) send() calls on the unit descriptor */
+static int unit_fd = -1; static int unit_what[2]; static size_t unit_n[2]; static int unit_calls;
+
 typedef ssize_t (*recv_fn) (int, void *, size_t, int);
 typedef ssize_t (*send_fn) (int, const void *, size_t, int);
 typedef ssize_t (*sendmsg_fn) (int, const struct msghdr *, int);
@@ -258,6 +261,13 @@ ssize_t send (int fd, const void *buf, size_t len, int flags)
 {
   static send_fn real; int c; struct fault *f; ssize_t r; int e;
   if (! real) real = (send_fn) dlsym (RTLD_NEXT, "send");
+  if (fd == unit_fd && unit_fd >= 0)
+  {
+    int k = unit_calls < 2 ? unit_calls : 1; unit_calls++;
+    if (0 == unit_what[k]) return real (fd, buf, len, flags);
+    if (F_SHORT == unit_what[k]) return real (fd, buf, unit_n[k] < len ? unit_n[k] : len, flags);
+    errno = fault_errno[unit_what[k]]; return -1;
+  }
   c = conn_of_fd (fd);
   if (c < 0) return real (fd, buf, len, flags);
   f = next_fault (c, K_SEND);
@@ -670,6 +680,64 @@ static enum MHD_Result handler (void *cls, struct MHD_Connection *mc, const char
   return do_reply (mc, rq, 0) == MHD_YES ? MHD_YES : MHD_NO;
 }
 
+
+/* ------------------------------------------------ mhd_send.c once more, WITHOUT vector send:
+   the header-then-body fall-back of MHD_send_hdr_and_body_ (in the configured build it is
+   reachable with TLS only) compiled from the same source text and entered directly */
+#undef HAVE_SENDMSG
+#undef HAVE_WRITEV
+#include "connection.h"
+#ifndef MHD_SEND_H
+#define MHD_SEND_H 1   /* skip mhd_send.h: it would switch MHD_VECT_SEND on */
+#endif
+#undef MHD_VECT_SEND
+#define MHD_send_init_static_vars_ nv_MHD_send_init_static_vars_
+#define MHD_connection_set_nodelay_state_ nv_MHD_connection_set_nodelay_state_
+#define MHD_connection_set_cork_state_ nv_MHD_connection_set_cork_state_
+#define MHD_send_data_ nv_MHD_send_data_
+#define MHD_send_hdr_and_body_ nv_MHD_send_hdr_and_body_
+#define MHD_send_sendfile_ nv_MHD_send_sendfile_
+#define MHD_send_iovec_ nv_MHD_send_iovec_
+ssize_t nv_MHD_send_data_ (struct MHD_Connection *connection, const char *buffer, size_t buffer_size, bool push_data);
+#include "mhd_send.c"
+#undef MHD_send_init_static_vars_
+#undef MHD_connection_set_nodelay_state_
+#undef MHD_connection_set_cork_state_
+#undef MHD_send_data_
+#undef MHD_send_hdr_and_body_
+#undef MHD_send_sendfile_
+#undef MHD_send_iovec_
+
+static int parse_answer (const char *w, int *what, size_t *n)
+{
+  int i;
+  *what = 0; *n = 0;
+  if (!strcmp (w, "full")) return 1;
+  if (!strncmp (w, "short:", 6)) { *what = F_SHORT; *n = (size_t) atol (w + 6); return *n >= 1; }
+  for (i = 2; i < F_NFAULT; i++) if (!strcmp (w, fault_name[i])) { *what = i; return 1; }
+  return 0;
+}
+
+/* hab <hdrhex> <bodyhex> <nonblk> <answer1> <answer2> */
+static void unit_hab (const char *hh, const char *bh, int nonblk, const char *a1, const char *a2)
+{
+  static struct MHD_Daemon fd_; static struct MHD_Connection fc;
+  size_t hl, bl; uint8_t *hb = lp_unhex (hh, &hl), *bb = lp_unhex (bh, &bl);
+  int sv[2]; ssize_t ret; static uint8_t rb[1 << 16]; ssize_t got;
+  if (!hb || !bb || !parse_answer (a1, &unit_what[0], &unit_n[0]) || !parse_answer (a2, &unit_what[1], &unit_n[1])
+      || 0 != socketpair (AF_UNIX, SOCK_STREAM | SOCK_NONBLOCK, 0, sv))
+  { free (hb); free (bb); out ("bad-op"); return; }
+  memset (&fd_, 0, sizeof(fd_)); memset (&fc, 0, sizeof(fc));
+  fc.daemon = &fd_; fc.socket_fd = sv[1]; fc.state = MHD_CONNECTION_HEADERS_SENDING;
+  fc.sk_nonblck = (0 != nonblk); fc.is_nonip = _MHD_YES; fc.sk_spipe_suppress = true;
+  unit_fd = sv[1]; unit_calls = 0;
+  ret = nv_MHD_send_hdr_and_body_ (&fc, (const char *) hb, hl, false, bl ? (const char *) bb : NULL, bl, true);
+  unit_fd = -1;
+  got = recv (sv[0], rb, sizeof(rb), MSG_DONTWAIT);
+  printf ("hab ret=%zd calls=%d wire=", ret, unit_calls); lp_puthex (stdout, rb, got > 0 ? (size_t) got : 0); putchar ('\n');
+  close (sv[0]); close (sv[1]); free (hb); free (bb);
+}
+
 /* ---------------------------------------------------------------- rounds */
 static void drain_clients (void)
 {
@@ -809,6 +877,7 @@ int main (void)
       }
       out ("ok"); continue;
     }
+    if (!strcmp (op, "hab") && l.n >= 6) { unit_hab (l.w[1], l.w[2], atoi (l.w[3]), l.w[4], l.w[5]); continue; }
     if (!strcmp (op, "start")) { start_daemon (); shim_quiet = threaded (); continue; }
     if (!strcmp (op, "fault") && l.n >= 5 && lp_u64 (l.w[1], &a) && a < MAXC && lp_u64 (l.w[3], &b) && b >= 1)
     { /* fault <c> <recv|send|sendmsg|sendfile> <k> <short n|eagain|eintr|econnreset|epipe|...> */
